@@ -1,7 +1,8 @@
 #!/usr/bin/env bash
 # run every claimed check (tier = $1, default quick) sequentially; summary in out/all.<tier>.log
 T=${1:-quick}
-cd /verif
+cd "$(dirname "$0")/.."
+mkdir -p out
 : > out/all.$T.log
 for p in $(python3 -c "import json;print(' '.join(c['property_id'] for c in json.load(open('MANIFEST.json'))['checks']))"); do
   s=$(date +%s)
